@@ -265,6 +265,13 @@ func (e *Engine) evalSpec(x *Expr, se *SpecEnv) Val {
 		if l, ok := se.lets[x.Name]; ok {
 			return e.evalSpec(l, se)
 		}
+		if e.root != nil && e.root.Pkg != nil && se.fr != nil {
+			if g, ok := e.root.Pkg.Members[x.Name].(*ssa.Global); ok {
+				// a package-level variable: its current value
+				pv := e.globalAddr(g, se.fr)
+				return e.loadLoc(se.st, e.locOf(pv))
+			}
+		}
 		if ad, c := e.findCtor(x.Name); ad != nil && len(c.Fields) == 0 {
 			e.declareADT(ad.Name, se)
 			return Val{T: e.adtType(ad.Name), L: []Term{{x.Name, Sort(ad.Name)}}}
@@ -714,6 +721,22 @@ func (e *Engine) evalCall(x *Expr, se *SpecEnv) Val {
 			out.L[li] = Select(arr, k)
 		}
 		return out
+	case "logiter":
+		// logiter(f, loop, k): which element the range loop `loop` of this function was visiting at the k-th logged call of f
+		name := e.logKey(x.Args[0].Name, se)
+		l, ok := se.st.logs[name]
+		if !ok {
+			l = e.logFromSig(se.st, name)
+			if l == nil {
+				panic(unsupported("no call log for %s", name))
+			}
+		}
+		d := int(x.Args[1].Int)
+		n := e.numRootLoops()
+		if d < 0 || d >= n || len(l.Args) < n {
+			panic(unsupported("logiter(%s, %d): the function has %d loops", name, d, n))
+		}
+		return mkInt(Select(l.Args[len(l.Args)-n+d][0], arg(2).L[0]))
 	case "inv":
 		return e.evalTypeInv(arg(0), se)
 	case "unchanged":
